@@ -47,19 +47,79 @@ func vsVerNum(v uint32) int {
 }
 
 // vsWireTaps installs the taps that turn datagrams into Handshake trace events.
-func vsWireTaps(net *vtrace.Net, r *vsRec) {
+type vsInject struct {
+	what  string // "vn_other" | "vn_offered" | "retry_bad" | "close" | "replay"
+	dir   string // count deliveries in this direction
+	after int    // inject right after this many deliveries
+	done  bool
+}
+
+func vsWireTaps(net *vtrace.Net, r *vsRec, plan []*vsInject) (newDial func()) {
 	var odcids [][]byte // candidate key sources for client Initials of the current dial
 	crypto := map[string][]vtrace.Frame{}
+	var cver uint32
+	var cscid, sscid, firstInitial []byte
+	delivered := map[string]int{}
+	sentHs := false
+	newDial = func() {
+		odcids, crypto, cver, cscid, sscid, firstInitial, sentHs = nil, map[string][]vtrace.Frame{}, 0, nil, nil, nil, false
+		delivered = map[string]int{}
+		for _, p := range plan {
+			p.done = false
+		}
+	}
+	inject := func(p *vsInject) {
+		if len(odcids) == 0 {
+			return
+		}
+		od := odcids[0]
+		line := vtrace.Op{"ev": "Inject", "what": p.what}
+		switch p.what {
+		case "vn_other":
+			net.InjectTo("s2c", vtrace.VNPacket(cscid, od, []uint32{0x1a2a3a4a}))
+		case "vn_v1":
+			net.InjectTo("s2c", vtrace.VNPacket(cscid, od, []uint32{vtrace.ObsV1}))
+		case "vn_offered":
+			net.InjectTo("s2c", vtrace.VNPacket(cscid, od, []uint32{cver, 0x1a2a3a4a}))
+		case "retry_bad":
+			net.InjectTo("s2c", vtrace.RetryPacket(cver, od, cscid, []byte{0xde, 0xad, 0xbe, 0xef, 1, 2, 3, 4}, []byte("forged-token"), false))
+		case "close":
+			src := sscid
+			if src == nil {
+				src = []byte{9, 9, 9, 9}
+			}
+			payload := []byte{0x1c, 0x0a, 0x00, 0x06, 'f', 'o', 'r', 'g', 'e', 'd'}
+			net.InjectTo("s2c", vtrace.SealInitial(cver, od, cscid, src, nil, 20, payload, false, 1162))
+			r.add(vtrace.Op{"ev": "InjClose"})
+		case "replay":
+			if firstInitial != nil {
+				net.InjectTo("c2s", firstInitial)
+			}
+		}
+		r.add(line)
+	}
 	net.Tap = func(ev vtrace.NetEvent) {
 		if ev.Dir != "c2s" {
 			return
 		}
 		data := ev.Data
+		if firstInitial == nil {
+			firstInitial = append([]byte(nil), ev.Data...)
+		}
 		for len(data) > 0 {
 			h := vtrace.ParseHdr(data)
+			if h.Kind == "handshake" && !sentHs {
+				sentHs = true
+				r.add(vtrace.Op{"ev": "CHandshake"})
+			}
 			if h.Kind != "initial" {
+				if (h.Kind == "handshake" || h.Kind == "0rtt") && h.Len > 0 && h.Len < len(data) {
+					data = data[h.Len:]
+					continue
+				}
 				break
 			}
+			cver, cscid = h.Version, append([]byte(nil), h.SCID...)
 			line := vtrace.Op{"ev": "CInitial", "ver": vsVerNum(h.Version), "dcid": hex.EncodeToString(h.DCID),
 				"scid": hex.EncodeToString(h.SCID), "tok": len(h.Token), "ord": ev.Ord, "iscid": "", "opened": false}
 			cands := append([][]byte{h.DCID}, odcids...)
@@ -92,11 +152,22 @@ func vsWireTaps(net *vtrace.Net, r *vsRec) {
 		}
 	}
 	net.TapDeliver = func(ev vtrace.NetEvent) {
+		inj := ev.Fault == "injected"
+		if !inj {
+			delivered[ev.Dir]++
+			defer func() {
+				for _, p := range plan {
+					if !p.done && p.dir == ev.Dir && delivered[ev.Dir] == p.after {
+						p.done = true
+						inject(p)
+					}
+				}
+			}()
+		}
 		if ev.Dir != "s2c" {
 			return
 		}
 		h := vtrace.ParseHdr(ev.Data)
-		inj := ev.Fault == "injected"
 		switch h.Kind {
 		case "vn":
 			vs := []int{}
@@ -114,17 +185,25 @@ func vsWireTaps(net *vtrace.Net, r *vsRec) {
 			r.add(vtrace.Op{"ev": "Retry", "scid": hex.EncodeToString(h.SCID), "tagok": ok, "inj": inj})
 		case "initial", "handshake":
 			if !inj && ev.Fault != "flip" && ev.Fault != "trunc" {
+				sscid = append([]byte(nil), h.SCID...)
 				r.add(vtrace.Op{"ev": "SPacket", "scid": hex.EncodeToString(h.SCID), "kind": h.Kind, "dcid": hex.EncodeToString(h.DCID), "ord": ev.Ord})
 			}
 		}
 	}
+	return newDial
 }
 
 func vfRunDials(c vtrace.Case, rec *vtrace.Rec) {
 	r := &vsRec{rec: rec, start: time.Now()}
 	net, cconn, sconn := vtrace.NewNet(5*time.Millisecond, vtrace.FaultsFromOps(c.Ops))
 	defer net.Close()
-	vsWireTaps(net, r)
+	var plan []*vsInject
+	for _, o := range c.Ops {
+		if o.Str("op") == "inject" {
+			plan = append(plan, &vsInject{what: o.Str("what"), dir: o.Str("dir"), after: o.Int("after")})
+		}
+	}
+	newDial := vsWireTaps(net, r, plan)
 	sconf := &Config{MaxIdleTimeout: 20 * time.Second}
 	switch c.Cfg.Str("server") {
 	case "v2only":
@@ -150,6 +229,7 @@ func vfRunDials(c vtrace.Case, rec *vtrace.Rec) {
 
 	for i := 1; i <= c.Cfg.Int("dials"); i++ {
 		net.ResetOrdinals()
+		newDial()
 		r.add(vtrace.Op{"ev": "DialStart", "i": i})
 		ctx, cancel := context.WithTimeout(context.Background(), 15*time.Second)
 		srvDone := make(chan struct{})
